@@ -1,0 +1,12 @@
+// Instrumentation points for external verification harnesses.
+// Compiled out unless YGM_VERIF_HOOKS is defined; the harness then provides
+//   extern "C" void ygm_verif_hook(const char* tag, long a, long b, long c);
+#pragma once
+
+#ifdef YGM_VERIF_HOOKS
+extern "C" void ygm_verif_hook(const char *tag, long a, long b, long c);
+#define YGM_VERIF_HOOK(tag, a, b, c) \
+  ::ygm_verif_hook(tag, (long)(a), (long)(b), (long)(c))
+#else
+#define YGM_VERIF_HOOK(tag, a, b, c) ((void)0)
+#endif
